@@ -82,6 +82,22 @@ def slice(ctx: fw.Ctx) -> fw.Outcome:
             x3 = impl.run_chart(text2, None)
             reqs.append((text2, None))
             meta.append(("isolate-full", text2, None, x3, full))
+    # tracks must be independent: an out-of-order section raises ValueError whatever other sections contain, selected alone or not
+    for _ in range(ctx.n(10, 500)):
+        t2 = rng.randint(50, 900)
+        early, late = rng.randint(1, t2 - 1), t2 + rng.randint(1, 500)
+        a, b = rng.sample([(i, d) for i in range(10) for d in range(4)], 2)
+        head = ["[Song]", "{", "  Resolution = 192", "}", "[SyncTrack]", "{", "  0 = TS 4", f"  0 = B {rng.choice([120000, 90000])}",
+                f"  {t2} = B {rng.choice([60000, 150000])}", "}", "[Events]", "{", "}"]
+        sec_a = [f"[{gen.header_tag(*a)}]", "{", f"  {early} = N 0 0", f"  {late} = N 1 0", "}"]
+        sec_b = [f"[{gen.header_tag(*b)}]", "{", f"  {late} = N 0 0", f"  {early} = N 1 0", "}"]
+        text = "\n".join(head + (sec_a + sec_b if rng.random() < 0.7 else sec_b + sec_a)) + "\n"
+        full = impl.run_chart(text, None)
+        reqs.append((text, None))
+        meta.append(("unsorted-full", text, None, full, None))
+        alone = impl.run_chart(text, [b])
+        reqs.append((text, [b]))
+        meta.append(("unsorted-alone", text, [b], alone, full))
     mod = __import__("verif.driver", fromlist=["x"]).run_parallel(
         [f"chart {common.driver.cps(t)} {common.driver.want_tok(w)}" for t, w in reqs])
     for (kind, text, sel, x, ref), m in zip(meta, mod):
@@ -102,6 +118,9 @@ def slice(ctx: fw.Ctx) -> fw.Outcome:
             if h1 != h0 or t1 != want:
                 out.violation("sel-" + fw.h(rp), f"selection {sel}: got tracks {sorted(t1)}, expected {sorted(want)} identical to the unrestricted parse"
                               + ("" if h1 == h0 else "; metadata/sync/events changed"), rp, observed=sorted(t1), promised=sorted(want))
+        if kind in ("unsorted-full", "unsorted-alone") and x != "E ValueError":
+            out.violation("unsorted-" + fw.h(rp), f"a section listing a tick before a tempo change it already passed was accepted ({kind}, want={sel}): "
+                          "whether it raises depends on what other sections contain", rp, observed=x[:80], promised="E ValueError")
         if kind == "isolate":
             # an unselected section (even invalid) never affects the result
             if x != ref:
@@ -128,6 +147,8 @@ def replay(ctx, data):
         h1, t1, _ = split_tracks(x)
         want = {k: v for k, v in t0.items() if k in [tuple(s) for s in data["want"]]}
         return (h1 != h0 or t1 != want), str(sorted(t1))
+    if data["op"] in ("unsorted-full", "unsorted-alone"):
+        return x != "E ValueError", x[:120]
     if data["op"] == "isolate":
         return ("ref" in data and x[:2000] != data["ref"]), x[:200]
     return False, x[:200]
